@@ -117,10 +117,12 @@ Theorem c41_model_meets_spec : forall ver h, ok_trace ver h (run ver init h) = t
 Proof. exact model_meets_spec. Qed.
 Print Assumptions c41_model_meets_spec.
 
-Theorem c41_model_case_ok : forall ver h nft enabled,
+Theorem c41_model_case_ok : forall ver h nft enabled ovl wl ext existing,
   snd (check_case {| c_ver := ver; c_ops := h; c_outs := run ver init h; c_nft := nft; c_offload := enabled;
                      c_rules := static_offload_rules nft enabled; c_limits := [];
-                     c_prog := progs None (run ver init h) |}) = true.
+                     c_prog := progs None (run ver init h); c_krule := Some offload_rule;
+                     c_ft_declared := ft_declared_after_apply true; c_ft_devs := ft_devices ovl wl ext existing;
+                     c_dev_in := (ovl, wl, ext, existing) |}) = true.
 Proof. exact model_case_ok. Qed.
 Print Assumptions c41_model_case_ok.
 
@@ -161,6 +163,17 @@ Theorem c41_ok_trace_implies_ok_prog : forall ver h pre dp outs,
   ok_trace_from ver pre dp h outs = true -> ok_prog_from ver pre h (progs dp outs) = true.
 Proof. exact ok_trace_progs. Qed.
 Print Assumptions c41_ok_trace_implies_ok_prog.
+
+(* The flowtable object (felix/nftables/table.go recalcFlowtableDevices + pruneToExistingDevices): Apply() names exactly the
+   devices offered by the three setters that the kernel has, each once, in ascending order. *)
+Theorem c41_flowtable_devices_exact : forall ovl wl ext existing d,
+  In d (ft_devices ovl wl ext existing) <-> (In d ovl \/ In d wl \/ In d ext) /\ In d existing.
+Proof. exact ft_devices_exact. Qed.
+Print Assumptions c41_flowtable_devices_exact.
+
+Theorem c41_flowtable_devices_sorted : forall ovl wl ext existing, StronglySorted N.lt (ft_devices ovl wl ext existing).
+Proof. exact ft_devices_sorted. Qed.
+Print Assumptions c41_flowtable_devices_sorted.
 
 (* Non-vacuity: same-count address change .1 -> .2 of an endpoint already programmed. *)
 Example c41_address_change_example :
